@@ -160,6 +160,29 @@ def ob_pp(tier):
     return res
 
 
+def _fmt_sweep(f):
+    """all seconds x all fractions (hundredths for the volume creation time, milliseconds for the scene centre) on boundary dates"""
+    import datetime as real_dt
+
+    bad = []
+    for date in ("20200229", "20141231", "20490101"):
+        for hh, mm in (("00", "00"), ("23", "59"), ("12", "34")):
+            for sec in range(60):
+                for nf, top in ((2, 100), (3, 1000)):
+                    for frac in range(top):
+                        text = f"{date}{hh}{mm}{sec:02d}{frac:0{nf}d}"
+                        want = real_dt.datetime(int(date[:4]), int(date[4:6]), int(date[6:]), int(hh), int(mm), sec, frac * 10 ** (6 - nf)).isoformat()
+                        try:
+                            got = f(text)
+                        except Exception as e:  # noqa: BLE001
+                            got = f"raised {type(e).__name__}"
+                        if got != want:
+                            bad.append({"text": text, "got": got, "want": want})
+                            if len(bad) > 5:
+                                return bad
+    return bad
+
+
 def ob_fmt(tier):
     """normalize_datetime: capture the format string the real function hands to strptime, model strptime positionally, compare with
     the pinned field layout for all digit strings"""
@@ -194,10 +217,17 @@ def ob_fmt(tier):
     T.dt = Shim
     try:
         out = T.normalize_datetime(sentinel)
+    except Exception:  # noqa: BLE001 - the implementation inspects the text itself: the proxy encoding does not apply
+        out = None
     finally:
         T.dt = orig
     if not isinstance(out, Iso) or cap.get("text") is not sentinel or cap.get("iso_args", (None,))[0] != "T":
-        return {"verdict": "inconclusive", "reason": "normalize_datetime does more than strptime(text, fmt).isoformat(); encoding not applicable"}
+        # the proxy encoding does not apply to this implementation: fall back to the exhaustive sweep of the fraction and seconds
+        # fields on the real function (finite domains) - it can only find violations, it cannot discharge the obligation
+        bad = _fmt_sweep(T.normalize_datetime)
+        if bad:
+            return {"verdict": "violated", "cex": {"replay": bad[:4]}, "finding_key": "C17.fmt", "queries": 1}
+        return {"verdict": "inconclusive", "reason": "normalize_datetime does more than strptime(text, fmt).isoformat(); encoding not applicable (sweep of all seconds x fractions found no deviation)"}
     fmt = cap["fmt"]
     quantum = _quantum(cap["iso_args"][1])
     widths = {"Y": 4, "m": 2, "d": 2, "H": 2, "M": 2, "S": 2}
